@@ -198,7 +198,10 @@ pub fn replay(path: &str) -> i32 {
     if r["engine"] == "ilv" && (prop == "C02" || prop == "C04" || prop == "C19") {
         let programs: Vec<Vec<String>> = r["programs"].as_array().map(|a| a.iter().map(|p| p.as_array().map(|x| x.iter().filter_map(|s| s.as_str().map(|s| s.to_string())).collect()).unwrap_or_default()).collect()).unwrap_or_default();
         let choices: Vec<usize> = r["choices"].as_array().map(|a| a.iter().filter_map(|x| x.as_u64().map(|n| n as usize)).collect()).unwrap_or_default();
-        return c02_ilv::replay_ilv(&prop, &programs, &choices);
+        let init: Option<Vec<String>> = r["init"].as_array().map(|a| a.iter().filter_map(|x| x.as_str().map(|s| s.to_string())).collect());
+        let sessions = r["sessions"].as_u64().unwrap_or(0) as usize;
+        let syscall_points = r["syscall_points"].as_bool().unwrap_or(false);
+        return c02_ilv::replay_ilv(&prop, &programs, &choices, init, sessions, syscall_points);
     }
     if r["engine"] == "c05" {
         return c05::replay_case(r["case"].as_str().unwrap_or(""));
